@@ -27,6 +27,8 @@ mod c12;
 mod c13;
 mod c14;
 mod c16;
+mod c17;
+mod c18;
 mod c19;
 mod codec;
 
@@ -72,6 +74,8 @@ registry! {
     "C13" => c13::C13,
     "C14" => c14::C14,
     "C16" => c16::C16,
+    "C17" => c17::C17,
+    "C18" => c18::C18,
 }
 
 fn parse_tier(s: &str) -> Tier {
